@@ -1,8 +1,12 @@
-"""Runs in a FRESH /venv python process per (program, seed, variant): Scenic from $VERIF_REPO.
-The orchestrator varies PYTHONHASHSEED and VERIF_VARIANT between processes; this script additionally
-moves object addresses (random allocation pattern before importing Scenic) and replaces
-time.perf_counter by a per-process pseudo-random clock so that the WeightedAcceptanceChecker orders
-requirements differently.  Output: a canonical dump that must be bit-identical across variants."""
+"""HOST process: a FRESH /venv python interpreter per (PYTHONHASHSEED, VERIF_VARIANT, shard of cases); Scenic
+from $VERIF_REPO is imported ONCE.  The host moves object addresses (variant-dependent allocation pattern
+before importing Scenic).  Every (program, seed, sub-variant) of its shard then runs in a FORKED CHILD of the
+host (same hash seed and import-time layout as the host, nothing compiled yet): the child picks its own
+pseudo-random clock (time.perf_counter replaced, so that the WeightedAcceptanceChecker orders requirements
+differently), its own extra allocation pattern, the way scenes are requested (one by one / generateBatch /
+fresh checker / BasicChecker / reversed order / a checker that consumes global randomness) and how much of
+the global RNG the requirement helper burn() consumes.  Output per child: a canonical dump that must be
+bit-identical across hosts and sub-variants."""
 import hashlib
 import json
 import os
@@ -26,16 +30,18 @@ if VARIANT:
 # ---- timing jitter: a clock that advances by pseudo-random, heavy-tailed steps
 _real_pc = time.perf_counter
 _clk = [1000.0]
-_jr = random.Random(VARIANT * 104729 + 5)
+_jr = [None]           # set per child; None = the real clock
 
 
 def _fake_pc():
-    _clk[0] += _jr.choice([1e-7, 1e-6, 1e-5, 1e-4, 1e-3, 1e-2]) * (0.5 + _jr.random())
+    jr = _jr[0]
+    if jr is None:
+        return _real_pc()
+    _clk[0] += jr.choice([1e-7, 1e-6, 1e-5, 1e-4, 1e-3, 1e-2]) * (0.5 + jr.random())
     return _clk[0]
 
 
-if VARIANT:
-    time.perf_counter = _fake_pc
+time.perf_counter = _fake_pc
 
 import numpy
 
@@ -133,18 +139,88 @@ def named_ranges(deps, names):
     return out
 
 
-def main():
-    job = json.load(sys.stdin)
-    res = dict(name=job["name"], variant=VARIANT, hashseed=os.environ.get("PYTHONHASHSEED"))
+def user_prop_orders(sc, uprops):
+    """For every object of the compiled scenario: the user-defined properties in the order specifier resolution
+    evaluated them (= insertion order of the property dict = order of the object's sampling dependencies)."""
+    out = []
+    for o in sc.objects:
+        ps = o._propertiesSet
+        out.append([k for k in vars(o) if k in ps and k in uprops])
+    return out
+
+
+def make_checker(mode, noisy):
+    from scenic.core.sample_checking import BasicChecker, SampleChecker, WeightedAcceptanceChecker
+    _inst = random._inst
+
+    class ReverseChecker(SampleChecker):
+        """every active requirement (optional ones included), last one first"""
+
+        def checkRequirementsInner(self, sample):
+            for req in reversed(self.requirements):
+                if req.active and req.falsifiedBy(sample):
+                    return req.violationMsg
+            return None
+
+    class NoisyChecker(WeightedAcceptanceChecker):
+        """a checker whose heuristics consume the global generators (the property: this must not show)"""
+
+        def checkRequirementsInner(self, sample):
+            for _ in range(noisy):
+                _inst.random()
+            numpy.random.random(noisy)
+            r = super().checkRequirementsInner(sample)
+            _inst.getrandbits(64 * noisy)
+            numpy.random.standard_normal(noisy)
+            return r
+
+    if mode == "basic":
+        return BasicChecker(True)
+    if mode == "reverse":
+        return ReverseChecker()
+    if noisy:
+        return NoisyChecker(bufferSize=100)
+    return None
+
+
+def np_fp():
+    st = numpy.random.get_state()
+    return (st[1].tobytes(), st[2:])
+
+
+def run_case(job, sub):
+    """Compile + generate + simulate once (inside a forked child)."""
+    mode = sub.get("mode", "sequential")
+    res = dict(name=job["name"], variant=VARIANT, hashseed=os.environ.get("PYTHONHASHSEED"), sub=sub.get("id"))
     random.seed(job["seed"])
     numpy.random.seed(job["seed"] % (2 ** 32))
     _ENABLED[0] = True
     sc = scenic.scenarioFromString(job["src"], mode2D=job.get("mode2D", False))
     res["compile_log"] = list(LOG)
+    res["compile_rng"] = rng_fingerprint()
     names = job.get("names", {})
     res["deps_named"] = named_ranges(sc.dependencies, names)
     res["n_deps"] = len(sc.dependencies)
-    mode = job.get("mode", "sequential")
+    res["prop_orders"] = user_prop_orders(sc, set(job.get("uprops", [])))
+    ck = make_checker(mode, sub.get("noisy", 0))
+    if ck is not None:
+        sc.setSampleChecker(ck)
+    # diagnostic (NOT compared): how often a requirement check consumed a global generator, and on a rejected candidate
+    consumed = dict(checks=0, consuming=0, consuming_rejected=0)
+    ch0 = sc.checker
+    inner = ch0.checkRequirements
+
+    def counting(sample):
+        a = (random.getstate(), np_fp())
+        r = inner(sample)
+        b = (random.getstate(), np_fp())
+        consumed["checks"] += 1
+        if a != b:
+            consumed["consuming"] += 1
+            if r is not None:
+                consumed["consuming_rejected"] += 1
+        return r
+    ch0.checkRequirements = counting
     nsc = job.get("nscenes", 1)
     scenes = []
     kept = []
@@ -154,6 +230,7 @@ def main():
             ss, its = sc.generateBatch(nsc, maxIterations=job.get("maxIterations", 2000) * nsc, verbosity=0)
             scenes = [dict(scene=scene_canon(s)) for s in ss]
             res["batch_iterations"] = its
+            res["batch_rng_after"] = rng_fingerprint()
             res["batch_log_sha"] = hashlib.sha256("\n".join(LOG[mark:]).encode()).hexdigest()[:16]
         else:
             for k in range(nsc):
@@ -163,7 +240,7 @@ def main():
                 mark = len(LOG)
                 scene, its = sc.generate(maxIterations=job.get("maxIterations", 2000), verbosity=int(os.environ.get("VERIF_VERBOSE", "0")))
                 entry = dict(scene=scene_canon(scene), iterations=its, rng_after=rng_fingerprint(),
-                             log=LOG[mark:] if k == 0 and job.get("full_log") else None,
+                             log=LOG[mark:] if k == 0 and sub.get("full_log") else None,
                              log_len=len(LOG) - mark,
                              log_sha=hashlib.sha256("\n".join(LOG[mark:]).encode()).hexdigest()[:16])
                 scenes.append(entry)
@@ -183,13 +260,69 @@ def main():
     except RejectionException as e:
         res["rejection"] = str(e)[:100]
     res["scenes"] = scenes
+    res["consumed"] = consumed
     # what the checker did differently here (diagnostic only; NOT compared)
     try:
         ch = sc.checker
-        res["checker_order"] = [type(r).__name__[:4] for r in ch.sortedRequirements()][:12]
+        if hasattr(ch, "sortedRequirements"):
+            res["checker_order"] = [type(r).__name__[:4] for r in ch.sortedRequirements()][:12]
+        else:
+            res["checker_order"] = [type(ch).__name__]
     except Exception:
         pass
-    print(json.dumps(res))
+    return res
+
+
+def child(job, sub, wfd):
+    import signal
+    import traceback
+    signal.alarm(int(sub.get("timeout", 300)))
+    try:
+        os.environ["VERIF_C15_BURN"] = str(sub.get("burn", 1))
+        os.environ["VERIF_C15_SUB"] = str(sub.get("id", 0))
+        ar = random.Random(sub.get("alloc", 0) * 7919 + 3)
+        keep = []
+        if sub.get("alloc"):
+            for _ in range(ar.randint(100, 8000)):       # move the addresses of everything allocated from here on
+                keep.append(bytearray(ar.randint(1, 400)) if ar.random() < 0.5 else [None] * ar.randint(1, 30))
+            del keep[::ar.randint(2, 5)]
+        if sub.get("jitter"):
+            _jr[0] = random.Random(sub["jitter"] * 104729 + 5)
+        try:
+            res = run_case(job, sub)
+        except BaseException as e:          # noqa: report, never hang the host
+            res = dict(crash=(type(e).__name__ + ": " + str(e) + "\n" + traceback.format_exc())[-1500:])
+        data = json.dumps(res).encode()
+    except BaseException as e:
+        data = json.dumps(dict(crash="child: " + repr(e))).encode()
+    with os.fdopen(wfd, "wb") as f:
+        f.write(data)
+    sys.stdout.flush()
+    os._exit(0)
+
+
+def main():
+    payload = json.load(sys.stdin)
+    out = []
+    for job in payload["tasks"]:
+        row = []
+        for sub in job["subs"]:
+            rfd, wfd = os.pipe()
+            sys.stdout.flush()
+            pid = os.fork()
+            if pid == 0:
+                os.close(rfd)
+                child(job, sub, wfd)
+            os.close(wfd)
+            with os.fdopen(rfd, "rb") as f:
+                data = f.read()
+            _, status = os.waitpid(pid, 0)
+            if data:
+                row.append(json.loads(data))
+            else:
+                row.append(dict(crash=f"child produced no output (wait status {status})"))
+        out.append(row)
+    print(json.dumps(dict(results=out)))
 
 
 if __name__ == "__main__":
